@@ -152,9 +152,9 @@ impl Check for VotesCheck {
     }
     fn runs(&self, tier: Tier) -> u64 {
         if tier == Tier::Quick {
-            500
+            1000
         } else {
-            50_000
+            50000
         }
     }
     fn components(&self) -> serde_json::Value {
